@@ -6,6 +6,7 @@ import (
 	"reflect"
 	"sort"
 	"strings"
+	"sync"
 	"testing"
 
 	"github.com/go-kid/ioc/app"
@@ -49,7 +50,29 @@ type CfgB struct {
 }
 
 var cfgKeys = map[string]string{ // required key -> owner kind
-	"c09.a.host": "A", "c09.a.port": "A", "c09.a.pre": "A", "c09.b.name": "B",
+	"c09.a.host": "A", "c09.a.port": "A", "c09.a.pre": "A", "c09.b.name": "B", "c09.mix.a": "M", "c09.mix.b": "M",
+}
+
+// TwoMix: two embedded helper structs whose fields have the SAME Go names (and the same tags): four distinct required
+// points - two components of different types, two configuration keys.
+type MixDbConn struct{ zoo.Core }
+type MixCacheConn struct{ zoo.Core }
+type MixDB struct {
+	Conn *MixDbConn `wire:""`
+	Key  string     `prop:"c09.mix.a"`
+}
+type MixCache struct {
+	Conn *MixCacheConn `wire:""`
+	Key  string        `prop:"c09.mix.b"`
+}
+type TwoMix struct {
+	zoo.Core
+	MixDB
+	MixCache
+}
+
+func ownerOn(b *Base, owner string) bool {
+	return (owner == "A" && b.CfgA) || (owner == "B" && b.CfgB) || (owner == "M" && b.Mix)
 }
 
 func yamlFor(missing map[string]bool) []byte {
@@ -68,7 +91,13 @@ func yamlFor(missing map[string]bool) []byte {
 	if !missing["c09.b.name"] {
 		sb.WriteString("    name: bee\n")
 	}
-	sb.WriteString("    other: 2\n")
+	sb.WriteString("    other: 2\n  mix:\n    other: 3\n")
+	if !missing["c09.mix.a"] {
+		sb.WriteString("    a: key-a\n")
+	}
+	if !missing["c09.mix.b"] {
+		sb.WriteString("    b: key-b\n")
+	}
 	return []byte(sb.String())
 }
 
@@ -122,6 +151,8 @@ type FactoryPP struct {
 	zoo.Core
 	failFactory bool
 	rejectName  string
+	rejectAll   bool // the scanner rejects every component of the start (many failures reported at the same time)
+	mu          sync.Mutex
 	fired       *int
 }
 
@@ -133,8 +164,10 @@ func (f *FactoryPP) PostProcessComponentFactory(factory container.Factory) error
 	return nil
 }
 func (f *FactoryPP) PostProcessDefinitionRegistry(registry container.DefinitionRegistry, component any, name string) error {
-	if f.rejectName != "" && f.rejectName == name {
+	if f.rejectAll || (f.rejectName != "" && f.rejectName == name) {
+		f.mu.Lock()
 		*f.fired++
+		f.mu.Unlock()
 		return errors.New("injected scanner fault")
 	}
 	return nil
@@ -168,10 +201,11 @@ type Base struct {
 	EmptyCfg bool
 	QPair    bool
 	ObsKind  int
+	Mix      bool
 }
 
 func (b *Base) String() string {
-	return fmt.Sprintf("%s cfgA=%v cfgB=%v runners=%d loaders=%d obs=%d qpair=%v", b.S.Shape(), b.CfgA, b.CfgB, b.Runners, b.Loaders, b.Obs, b.QPair)
+	return fmt.Sprintf("%s cfgA=%v cfgB=%v runners=%d loaders=%d obs=%d qpair=%v", b.S.Shape(), b.CfgA, b.CfgB, b.Runners, b.Loaders, b.Obs, b.QPair) + fmt.Sprintf(" mix=%v", b.Mix)
 }
 
 type Site struct {
@@ -279,6 +313,25 @@ func build(b *Base, faults []Site) *built {
 		d.B = &zoo.Beh{Alias: "q-dep", Mask: q}
 		addExtra(h, h.B)
 		addExtra(d, d.B)
+	}
+	if b.Mix {
+		h, d1, d2 := &TwoMix{}, &MixDbConn{}, &MixCacheConn{}
+		h.B = &zoo.Beh{Alias: "two-mix", Mask: "m0"}
+		d1.B = &zoo.Beh{Alias: "mix-db", Mask: "m0"}
+		d2.B = &zoo.Beh{Alias: "mix-cache", Mask: "m0"}
+		addExtra(h, h.B)
+		drop := -1
+		for _, f := range faults {
+			if f.Kind == "unsat-mix" {
+				drop = f.A // that provider is not registered: the required point of its type is unsatisfiable
+			}
+		}
+		if drop != 0 {
+			addExtra(d1, d1.B)
+		}
+		if drop != 1 {
+			addExtra(d2, d2.B)
+		}
 	}
 	for i := 0; i < b.Runners; i++ {
 		r := &Runner{}
@@ -392,6 +445,8 @@ func build(b *Base, faults []Site) *built {
 			fpp.failFactory = true
 		case "scanner":
 			fpp.rejectName = f.Name
+		case "scanner-all":
+			fpp.rejectAll = true
 		}
 	}
 	addExtra(fpp, fpp.B)
@@ -480,9 +535,13 @@ func sites(b *Base) []Site {
 	for _, nm := range names {
 		out = append(out, Site{Kind: "scanner", Name: nm})
 	}
+	out = append(out, Site{Kind: "scanner-all"})
+	if b.Mix {
+		out = append(out, Site{Kind: "unsat-mix", A: 0}, Site{Kind: "unsat-mix", A: 1})
+	}
 	var keys []string
 	for k, owner := range cfgKeys {
-		if (owner == "A" && b.CfgA) || (owner == "B" && b.CfgB) {
+		if ownerOn(b, owner) {
 			keys = append(keys, k)
 		}
 	}
@@ -564,7 +623,7 @@ func decide(t fataler, b *Base, faults []Site) {
 	cfgMissing := false
 	for k := range bu.missing {
 		owner := cfgKeys[k]
-		if (owner == "A" && b.CfgA) || (owner == "B" && b.CfgB) {
+		if ownerOn(b, owner) {
 			cfgMissing = true
 		}
 	}
@@ -686,7 +745,7 @@ func genBase(t *rapid.T) *Base {
 		}
 	}
 	return &Base{S: s, CfgA: rapid.Bool().Draw(t, "cfga"), CfgB: rapid.Bool().Draw(t, "cfgb"),
-		QPair: rapid.Bool().Draw(t, "qpair"), ObsKind: rapid.IntRange(0, 3).Draw(t, "obskind"), Runners: rapid.IntRange(1, 3).Draw(t, "runners"), Loaders: rapid.IntRange(1, 2).Draw(t, "loaders"), Obs: rapid.IntRange(0, 2).Draw(t, "obs")}
+		QPair: rapid.Bool().Draw(t, "qpair"), Mix: rapid.Bool().Draw(t, "mix"), ObsKind: rapid.IntRange(0, 3).Draw(t, "obskind"), Runners: rapid.IntRange(1, 3).Draw(t, "runners"), Loaders: rapid.IntRange(1, 2).Draw(t, "loaders"), Obs: rapid.IntRange(0, 2).Draw(t, "obs")}
 }
 
 // TestSingleFaults: for each drawn base, the clean run and EVERY single fault site.
